@@ -1,5 +1,19 @@
 """Claimed checks -> MANIFEST.json (bin/mkmanifest).  One entry per property that has a validated check."""
 CHECKS = {
+    'C01': dict(
+        category='proof',
+        text='Verdict gate: every path of jwt_verify_sig through the OpenSSL and GnuTLS verify routines (14 algorithms, every library '
+             'result class, every allocation outcome) is enumerated; a path that leaves the per-call error flag clear must contain a '
+             'successful verification event (EVP_DigestVerify==1, gnutls_pubkey_verify_data2>=0, exact compare==0 of the recomputed MAC) '
+             'whose data operand is the unchanged signing input, whose key is the configured key, with the RFC 7518 digest/padding. '
+             'Every slice of the decoded signature passed to the crypto library is shown to lie inside it by linear reasoning over the '
+             'path equalities. The signing input handed down is the raw token up to the second dot. The policy and key-kind tables of '
+             'C02 are re-evaluated (a MAC under the empty key is not a valid signature by the configured key).',
+        design_ref='DESIGN.md section 3 C01',
+        note='Trusted: the crypto libraries verify correctly; clang front end; engine; API model. Not decided: correctness of '
+             'jwt_strcmp\'s and jwt_parse\'s loops over runtime bytes (only the relation of their results to the operands).',
+        technique='path-sensitive must-pass-through (verdict gate) + operand provenance + linear region check over the clang AST',
+    ),
     'C02': dict(
         category='proof',
         text='Algorithm pinning is a finite decision problem: __setkey_check (builder and checker builds, 595 cells each), the '
